@@ -1370,6 +1370,11 @@ class Interp:
                 return r
             if a == '__name__':
                 return K(v.name)
+            if a in ('_fields', '_make') and 'NamedTuple' in self.prog.ext_bases(v):
+                names_ = [f for f, _, _ in self.models.dataclass_fields(self, v)]
+                if a == '_fields':
+                    return ListV([K(f) for f in names_], tup=True)
+                return Native(lambda it, args, kw, node: it.construct(v, list(it.iterate(args[0])), {}, node), f'{v.name}._make')
             if a == '__new__':
                 return Native(lambda it, args, kw, node: it.new_inst(args[0] if args else v), f'{v.name}.__new__')
             raise RaiseEx('AttributeError', f'class {v.name} has no attribute {a}', n)
